@@ -30,7 +30,37 @@ RULE = ("random Bayesian networks (random DAGs of every density, chains, forks, 
         "1e-9 relative of the maximum: float near-tie), (d) equal the model's answer when the maximum is unique, and for "
         "the elimination engine also under ties when the model is given the implementation's axis order.  A case is "
         "non-trivial when at least one query has a non-query non-evidence variable to sum out and >= 2 joint query states; "
-        "distinct = distinct canonical (network, query stream)")
+        "distinct = distinct canonical (network, query stream).  "
+        "FURTHER STREAMS (generalisation classes A-M of notes/GENERALISATION_CHECKLIST.md): "
+        "[A] sessions on one engine (calibrate/max_calibrate/get_clique_beliefs/query/max_marginal/rejected calls between "
+        "map_query calls) and on one model object: CPDs replaced by add_cpds without remove, remove_cpds+add_cpds, fit on a "
+        "frame, remove_node, do(inplace=True), MarkovNetwork add_factors/remove_factors, each followed by FRESH VE and BP "
+        "engines judged against the parameters the model lists NOW (networkx remove_edge/clear leave a BayesianNetwork "
+        "that check_model rejects, so no MAP query exists for them); "
+        "[no-variables] map_query(variables=None / [] / omitted) = MAP over exactly the unobserved variables, with hard and "
+        "virtual evidence, on BayesianNetwork, MarkovNetwork, FactorGraph (BP; VE does not support it) and JunctionTree "
+        "engines, every elimination_order string incl. 'greedy', plus explicit query sets on FactorGraph/JunctionTree engines; "
+        "[B] deep snapshots of variables/evidence/virtual_evidence/elimination_order/predict frame before and after, and "
+        "the same argument objects reused for a second call; [C] the returned dict is scribbled over and the question "
+        "repeated on the same engine (distinct result objects, same answer); [D] predict frames with RangeIndex, shifted, "
+        "permuted, gapped, duplicate and string index labels, int/bool/str/object/categorical columns (categories in another "
+        "order, some unused), duplicate rows, shuffled column order; [E] names that are substrings of one another, names "
+        "starting with the virtual-evidence prefix '__', keyword-like names, int/str/tuple mixed (tuple labels cannot be "
+        "DataFrame columns: predict skipped there); [F] integer state names that are not their positions, 1-based and "
+        "negative, booleans, the same names across variables (a state-name ORDER conflict between CPDs is rejected by "
+        "check_model and belongs to C05: generators only build models check_model accepts); [G] joint MAP over 9-10 "
+        "variables with integer names up to 12 (>= 9 axes in the final table), cardinality-1 variables, single-node and "
+        "edgeless networks, isolated nodes, variables=[] and evidence={} vs None, virtual_evidence as TabularCPD or "
+        "DiscreteFactor, falsy names 0 / False; [H] CPD entries 2^-20..2^-50 and columns 1/2 +- 2^-41, evidence of "
+        "probability down to ~1e-60, Markov factors scaled by 2^-280..2^280 (all exact in binary floating point; the oracle "
+        "is the exact rational posterior, tolerance 1e-9 RELATIVE to its maximum); NaN cannot arise for evidence of non-zero "
+        "probability, which the property requires; [I] numpy and torch (float64) backends; [J] every elimination_order "
+        "option, show_progress True/False, predict algo None/VE/BP (n_jobs only selects joblib's scheduler: 1 here), "
+        "max_marginal defaults; [K] map_query calls that must be refused (variables overlapping evidence, a LATER virtual "
+        "evidence of the wrong cardinality / on an unknown variable, an elimination order containing a query variable, an "
+        "unknown evidence state) followed by a judged map_query on the same engine; [L] shuffled node/edge/CPD/factor "
+        "insertion, parent, query-variable and evidence orders, explicit random elimination orders, 4/16 hash seeds; "
+        "[M] tools/check.py shuffles the cases and enforces the budget floor")
 TRUSTED_BASE = ["numpy argmax/einsum kernels and float arithmetic (inputs are dyadic, so the engine's tables are exact)",
                 "network pruning (_prune_bayesian_model) and the junction-tree calibration behind BeliefPropagation are "
                 "covered here only through the checker on their final answers (their own theorems: C01, C02)",
@@ -63,6 +93,15 @@ def name_specs(rng, n, style):
         return [["i", x] for x in pool[:n]]
     if style == "tuple":
         return [["t", ["v", i]] for i in rng.sample(range(n + 3), n)]
+    if style == "substr":
+        # one name a substring of another, the virtual-evidence prefix "__", keyword-like names, digit strings
+        pool = ["x1", "x10", "x", "x11", "G", "G2", "__x1", "__G", "x1_", "phi_x", "1", "0", "variables", "evidence"]
+        head = rng.choice([["x1", "x10", "__x1"], ["G", "G2", "__G"], ["x", "x1", "x11"]])
+        rest = [q for q in pool if q not in head]
+        rng.shuffle(rest)
+        names = (head + rest)[:n]
+        rng.shuffle(names)
+        return [["s", x] for x in names]
     pool = [["s", "x"], ["i", 0], ["t", ["t", 1]], ["s", "y"], ["i", 7], ["s", "zz"], ["i", 3], ["t", ["u", 2]], ["s", "w"],
             ["i", 11], ["s", "q"]]
     rng.shuffle(pool)
@@ -70,6 +109,12 @@ def name_specs(rng, n, style):
 
 
 def state_specs(rng, card, style):
+    if style == "bool" and card == 2:
+        p = [True, False]
+        rng.shuffle(p)
+        return [["b", x] for x in p]
+    if style == "bool":
+        style = "intperm"
     if style == "int":          # plain 0..card-1
         return [["i", i] for i in range(card)]
     if style == "intperm":      # permuted integers: name != number
@@ -92,7 +137,7 @@ def state_specs(rng, card, style):
     return pool[:card]
 
 
-STATE_STYLES = ["int", "intperm", "intoff", "str", "tuple", "mixed"]
+STATE_STYLES = ["int", "intperm", "intoff", "str", "tuple", "mixed", "bool"]
 
 
 # ------------------------------------------------------------------ numbers
@@ -177,7 +222,7 @@ def gen_bn(rng, nmax, space_max):
         cols = [column(rng, cards[v]) for _ in range(ncol)]
         rows = [[jf(cols[j][i]) for j in range(ncol)] for i in range(cards[v])]
         cpds.append({"v": v, "pa": parents[v], "rows": rows})
-    vstyle = rng.choice(["str", "str", "int", "tuple", "mixed"])
+    vstyle = rng.choice(["str", "substr", "int", "tuple", "mixed"])
     return {"kind": "bn", "n": n, "nodes": nodes, "edges": [list(e) for e in edges], "cards": cards, "cpds": cpds,
             "shape": shape, "vstyle": vstyle, "vnames": name_specs(rng, n, vstyle),
             "states": [state_specs(rng, cards[v], rng.choice(STATE_STYLES)) for v in range(n)],
@@ -268,7 +313,7 @@ def gen_mn(rng, nmax):
     if facs and rng.random() < 0.25:
         f = rng.choice(facs)
         facs.append({"vars": list(f["vars"]), "vals": list(f["vals"])})
-    vstyle = rng.choice(["str", "int", "tuple", "mixed"])
+    vstyle = rng.choice(["str", "substr", "int", "tuple", "mixed"])
     return {"kind": "mn", "n": n, "edges": [list(e) for e in und], "cards": cards, "factors": facs, "vstyle": vstyle,
             "vnames": name_specs(rng, n, vstyle),
             "states": [state_specs(rng, cards[v], rng.choice(STATE_STYLES)) for v in range(n)],
@@ -317,11 +362,115 @@ def cases(tier, seed):
     ns = 420 if tier == "quick" else 4200
     for i in range(ns):
         out.append(gen_session(rng, nmax, space, "bp" if i % 3 else "ve"))
+    for _ in range(8 if tier == "quick" else 80):
+        out.append(gen_wide(rng))
+    for _ in range(30 if tier == "quick" else 300):
+        out.append(make_extreme_bn(rng, gen_bn(rng, 5, 200)))
+        out.append(make_extreme_mn(rng, gen_mn(rng, 4)))
+    # the torch backend for a share of the single-query, primitive and session cases
+    for c in out:
+        if c["kind"] in ("bn", "mn", "prim", "session") and rng.random() < 0.12:
+            c["torch"] = True
+    na = 110 if tier == "quick" else 1300
+    for i in range(na):
+        if i % 3 == 2:
+            c = dict(gen_mn(rng, 5))
+            c["base"] = "mn"
+        else:
+            r = rng.random()
+            c = dict(gen_trap(rng) if r < 0.15 else (gen_maxsum(rng) if r < 0.4 else gen_bn(rng, min(nmax, 5), 300)))
+            c["base"] = "bn"
+        c["kind"] = "all"
+        out.append(c)
     nu = 160 if tier == "quick" else 1600
     for _ in range(nu):
         out.append(gen_update(rng, nmax, space))
+    for _ in range(nu // 4):
+        c = dict(gen_mn(rng, 5))
+        c["kind"] = "update-mn"
+        out.append(c)
     rng.shuffle(out)
     return out
+
+
+def gen_wide(rng):
+    """9..10 variables (integer names up to 12, so sets of names no longer iterate in increasing order) whose joint
+    MAP is asked for: the final table has >= 9 axes"""
+    n = rng.choice([9, 10])
+    cards = [2] * n
+    for v in rng.sample(range(n), 2):
+        cards[v] = 1
+    order = list(range(n))
+    rng.shuffle(order)
+    edges, parents = [], {v: [] for v in range(n)}
+    for i, v in enumerate(order):
+        for u in rng.sample(order[:i], min(i, rng.choice([0, 1, 1, 2]))):
+            edges.append([u, v])
+            parents[v].append(u)
+    rng.shuffle(edges)
+    cpds = []
+    nodes = list(range(n))
+    rng.shuffle(nodes)
+    for v in nodes:
+        ncol = 1
+        for p_ in parents[v]:
+            ncol *= cards[p_]
+        cols = [column(rng, cards[v]) for _ in range(ncol)]
+        cpds.append({"v": v, "pa": parents[v], "rows": [[jf(cols[j][i]) for j in range(ncol)] for i in range(cards[v])]})
+    names = list(range(13))
+    rng.shuffle(names)
+    return {"kind": "wide", "n": n, "nodes": nodes, "edges": edges, "cards": cards, "cpds": cpds, "shape": "wide",
+            "vstyle": "int", "vnames": [["i", x] for x in names[:n]],
+            "states": [state_specs(rng, cards[v], rng.choice(["int", "intperm", "str", "bool"])) for v in range(n)],
+            "qseed": rng.randint(0, 10 ** 9)}
+
+
+def make_extreme_bn(rng, c):
+    """replace some CPD columns by columns with entries 2^-k (k up to 50), or columns that differ from 1/2 by 2^-41"""
+    c = dict(c)
+    cpds = []
+    for d in c["cpds"]:
+        card = len(d["rows"])
+        ncol = len(d["rows"][0])
+        rows = [list(r) for r in d["rows"]]
+        for j in range(ncol):
+            r = rng.random()
+            if card >= 2 and r < 0.4:
+                k = rng.choice([20, 40, 50])
+                i0, i1 = rng.sample(range(card), 2)
+                col = [Fraction(0)] * card
+                col[i0] = Fraction(1, 2 ** k)
+                col[i1] = 1 - Fraction(1, 2 ** k)
+                for i in range(card):
+                    rows[i][j] = jf(col[i])
+            elif card == 2 and r < 0.55:
+                e = Fraction(1, 2 ** 41)
+                col = [Fraction(1, 2) + e, Fraction(1, 2) - e]
+                rng.shuffle(col)
+                for i in range(card):
+                    rows[i][j] = jf(col[i])
+        cpds.append({"v": d["v"], "pa": d["pa"], "rows": rows})
+    c["cpds"] = cpds
+    c["inexact"] = True
+    c["shape"] = "extreme"
+    return c
+
+
+def make_extreme_mn(rng, c):
+    """scale the factors by powers of two between 2^-280 and 2^280 (products stay inside the float range)"""
+    c = dict(c)
+    facs = []
+    budget = 900
+    for f in c["factors"]:
+        k = rng.choice([-280, -150, -60, 0, 60, 150, 280])
+        if abs(k) > budget:
+            k = 0
+        budget -= abs(k)
+        sc = Fraction(2) ** k
+        facs.append({"vars": f["vars"], "vals": [jf(fr(x) * sc) for x in f["vals"]]})
+    c["factors"] = facs
+    c["inexact"] = True
+    return c
 
 
 def gen_update(rng, nmax, space):
@@ -385,7 +534,7 @@ def gen_maxsum(rng):
     rng.shuffle(cpds2)
     nodes = list(range(n))
     rng.shuffle(nodes)
-    vstyle = rng.choice(["str", "int", "tuple", "mixed"])
+    vstyle = rng.choice(["str", "substr", "int", "tuple", "mixed"])
     return {"kind": "bn", "n": n, "nodes": nodes, "edges": edges, "cards": cards2, "cpds": cpds2, "shape": "maxsum",
             "vstyle": vstyle, "vnames": name_specs(rng, n, vstyle),
             "states": [state_specs(rng, cards2[v], rng.choice(STATE_STYLES)) for v in range(n)],
@@ -470,7 +619,9 @@ class Net:
         for i, s in enumerate(self.st[v]):
             if type(s) is type(name) and s == name:
                 return i
-        for i, s in enumerate(self.st[v]):      # numpy scalars for integer names
+        for i, s in enumerate(self.st[v]):      # numpy scalars for integer / boolean names
+            if isinstance(s, bool) != (isinstance(name, bool) or type(name).__name__ in ("bool_", "bool")):
+                continue
             if not isinstance(s, (str, tuple)) and not isinstance(name, (str, tuple)):
                 try:
                     if s == name and int(name) == s:
@@ -651,9 +802,23 @@ def connected(case):
 
 
 # ------------------------------------------------------------------ Bayesian networks
+def purity_snapshot(variables, evidence, virt, order):
+    """deep, order-sensitive picture of the caller's arguments"""
+    def tab(c):
+        import numpy as np
+        vals = c.values
+        vals = vals.detach().cpu().numpy() if hasattr(vals, "detach") else np.asarray(vals)
+        return (type(c).__name__, repr(list(c.variables)), repr(list(c.cardinality)), vals.reshape(-1).tolist(),
+                repr(sorted(((repr(k), repr(v)) for k, v in c.state_names.items()))))
+    return repr((list(variables) if variables is not None else None,
+                 list(evidence.items()) if evidence is not None else None,
+                 [tab(c) for c in virt] if virt is not None else None,
+                 list(order) if isinstance(order, list) else order))
+
+
 def run_bn(case, drv):
     from pgmpy.inference import VariableElimination, BeliefPropagation
-    from pgmpy.factors.discrete import TabularCPD
+    from pgmpy.factors.discrete import TabularCPD, DiscreteFactor
     net = Net(case)
     bn, fs = build_bn(net)
     rng = random.Random(case["qseed"])
@@ -694,8 +859,20 @@ def run_bn(case, drv):
             Qn = [net.vn[v] for v in Q]
 
             def vev():
-                return [TabularCPD(net.vn[v], net.cards[v], [[float(x)] for x in virt[v]],
-                                   state_names={net.vn[v]: list(net.st[v])}) for v in sorted(virt)] or None
+                # TabularCPD or (equally documented) a one-variable DiscreteFactor; [] when there is none, sometimes
+                out = []
+                for v in sorted(virt):
+                    if rng.random() < 0.7:
+                        out.append(TabularCPD(net.vn[v], net.cards[v], [[float(x)] for x in virt[v]],
+                                              state_names={net.vn[v]: list(net.st[v])}))
+                    else:
+                        out.append(DiscreteFactor([net.vn[v]], [net.cards[v]], [float(x) for x in virt[v]],
+                                                  state_names={net.vn[v]: list(net.st[v])}))
+                return out or None
+
+            def evarg():
+                # None and {} are both "no evidence"
+                return dict(evn) if (evn or rng.random() < 0.3) else None
 
             # --- the elimination engine, two order options per query
             perm = list(J.rest)
@@ -704,10 +881,24 @@ def run_bn(case, drv):
             for eo in opts:
                 eo_arg = [net.vn[v] for v in perm] if eo == "explicit" else eo
                 ve = VariableElimination(bn)
-                res = ve.map_query(variables=list(Qn), evidence=dict(evn) or None, virtual_evidence=vev(),
-                                   elimination_order=eo_arg, show_progress=False)
+                a_vars, a_ev, a_virt = list(Qn), evarg(), vev()
+                snap = purity_snapshot(a_vars, a_ev, a_virt, eo_arg)
+                res = ve.map_query(variables=a_vars, evidence=a_ev, virtual_evidence=a_virt,
+                                   elimination_order=eo_arg, show_progress=rng.random() < 0.1)
+                if purity_snapshot(a_vars, a_ev, a_virt, eo_arg) != snap:
+                    return bad("impl!=spec:argument-mutated", {"where": "VE.map_query", "before": snap,
+                                                               "after": purity_snapshot(a_vars, a_ev, a_virt, eo_arg)})
+                if rng.random() < 0.15:
+                    # the same argument objects reused for a second call on a fresh engine
+                    res2 = VariableElimination(bn).map_query(variables=a_vars, evidence=a_ev, virtual_evidence=a_virt,
+                                                             elimination_order=eo_arg, show_progress=False)
+                    b = J.judge(res2, "VE.map_query with reused argument objects", strict_ties=not case.get("inexact"))
+                    tags.append("arguments-reused")
+                    if b and b != "near":
+                        return b
                 nq += 1
-                b = J.judge(res, "VE.map_query elimination_order=%s virt=%s" % (eo, sorted(virt)), strict_ties=True)
+                b = J.judge(res, "VE.map_query elimination_order=%s virt=%s" % (eo, sorted(virt)),
+                            strict_ties=not case.get("inexact"))
                 tags.append("VE order=%s" % eo)
                 if b == "near":
                     tags.append("near-tie-accepted")
@@ -718,8 +909,13 @@ def run_bn(case, drv):
             # --- belief propagation
             if conn and rng.random() < 0.5:
                 bp = BeliefPropagation(bn)
-                res = bp.map_query(variables=list(Qn), evidence=dict(evn) or None, virtual_evidence=vev(),
-                                   show_progress=False)
+                a_vars, a_ev, a_virt = list(Qn), evarg(), vev()
+                snap = purity_snapshot(a_vars, a_ev, a_virt, None)
+                res = bp.map_query(variables=a_vars, evidence=a_ev, virtual_evidence=a_virt,
+                                   show_progress=rng.random() < 0.1)
+                if purity_snapshot(a_vars, a_ev, a_virt, None) != snap:
+                    return bad("impl!=spec:argument-mutated", {"where": "BP.map_query", "before": snap,
+                                                               "after": purity_snapshot(a_vars, a_ev, a_virt, None)})
                 nq += 1
                 b = J.judge(res, "BP.map_query virt=%s" % sorted(virt), strict_ties=False)
                 tags.append("BP")
@@ -742,10 +938,15 @@ def run_bn(case, drv):
                                                             case["vnames"], case["states"], case["qseed"]]), tags=tags)
 
 
+def to_np(x):
+    import numpy as np
+    return x.detach().cpu().numpy() if hasattr(x, "detach") else np.asarray(x)
+
+
 def exact_factor(net, phi):
     """a pgmpy DiscreteFactor -> [var ids, exact values]"""
     vs = [net.var_of(x) for x in phi.variables]
-    vals = [Fraction(float(x)) for x in phi.values.reshape(-1)]
+    vals = [Fraction(float(x)) for x in to_np(phi.values).reshape(-1)]
     return [vs, vals]
 
 
@@ -791,14 +992,44 @@ def run_predict(case, drv, net, bn, fs, rng, tags):
     rows = rows + [dict(rows[0])]      # a duplicate row
     rng.shuffle(E)
     cols = {}
-    index = [10 + 3 * i for i in range(len(rows))]
+    m = len(rows)
+    # the index is never data: default, shifted, permuted, gapped, duplicate labels, string labels
+    ikind = rng.choice(["range", "shifted", "permuted", "gapped", "duplicates", "strings"])
+    if ikind == "range":
+        index = list(range(m))
+    elif ikind == "shifted":
+        index = list(range(5, 5 + m))
+    elif ikind == "permuted":
+        index = list(range(m))
+        rng.shuffle(index)
+    elif ikind == "gapped":
+        index = [10 + 3 * i for i in range(m)]
+    elif ikind == "duplicates":
+        index = [i // 2 for i in range(m)]
+    else:
+        index = ["r%d" % (m - i) for i in range(m)]
+    ckinds = []
     for v in E:
         names = [net.st[v][r[v]] for r in rows]
-        if all(isinstance(x, int) for x in net.st[v]) or all(isinstance(x, str) for x in net.st[v]):
-            cols[net.vn[v]] = names
+        homog = (all(type(x) is int for x in net.st[v]) or all(isinstance(x, str) for x in net.st[v])
+                 or all(type(x) is bool for x in net.st[v]))
+        if homog and rng.random() < 0.3:
+            # categorical column; the categories list every state (so some are UNUSED in the frame) in another order
+            cats = list(net.st[v])
+            rng.shuffle(cats)
+            cols[net.vn[v]] = pd.Series(pd.Categorical(names, categories=cats), index=index)
+            ckinds.append("categorical")
+        elif homog:
+            cols[net.vn[v]] = pd.Series(names, index=index)
+            ckinds.append(type(names[0]).__name__)
         else:
             cols[net.vn[v]] = pd.Series(names, dtype=object, index=index)
+            ckinds.append("object")
     df = pd.DataFrame(cols, index=index)
+    df_snapshot = (list(df.index), list(df.columns), [str(t) for t in df.dtypes], df.astype(object).values.tolist())
+    tags.append("predict index=" + ikind)
+    for ck in set(ckinds):
+        tags.append("predict column=" + ck)
     algo = rng.choice([None, "ve", "bp"]) if connected(case) else rng.choice([None, "ve"])
     kw = {}
     if algo == "ve":
@@ -806,6 +1037,8 @@ def run_predict(case, drv, net, bn, fs, rng, tags):
     elif algo == "bp":
         kw["algo"] = BeliefPropagation
     pred = bn.predict(df, n_jobs=1, **kw)
+    if (list(df.index), list(df.columns), [str(t) for t in df.dtypes], df.astype(object).values.tolist()) != df_snapshot:
+        return bad("impl!=spec:predict-mutated-its-frame", {"before": repr(df_snapshot), "after": repr(df)})
     tags.append("predict rows=%d algo=%s" % (len(rows), algo))
     info = {"where": "predict", "E": E, "rows": [sorted(r.items()) for r in rows]}
     try:
@@ -873,7 +1106,7 @@ def run_mn(case, drv):
             res = ve.map_query(variables=list(Qn), evidence=dict(evn) or None,
                                elimination_order=[net.vn[v] for v in perm] if eo == "explicit" else eo, show_progress=False)
             tags.append("MN VE order=%s" % eo)
-            b = J.judge(res, "MN VE.map_query order=%s" % eo, strict_ties=True)
+            b = J.judge(res, "MN VE.map_query order=%s" % eo, strict_ties=not case.get("inexact"))
             if b == "near":
                 tags.append("near-tie-accepted")
             elif b:
@@ -996,8 +1229,8 @@ def run_session(case, drv):
         last = (Q, ev, virt)
         return last
 
-    ops_bp = ["calibrate", "max_calibrate", "max_calibrate", "beliefs", "query", "map", "map", "map"]
-    ops_ve = ["query", "max_marginal", "map", "map", "map"]
+    ops_bp = ["calibrate", "max_calibrate", "max_calibrate", "beliefs", "query", "rejected", "map", "map", "map"]
+    ops_ve = ["query", "max_marginal", "rejected", "map", "map", "map"]
     steps = [rng.choice(ops_bp if engine == "bp" else ops_ve) for _ in range(case["nsteps"])]
     if "map" not in steps:
         steps[-1] = "map"
@@ -1026,6 +1259,39 @@ def run_session(case, drv):
         vev = [TabularCPD(net.vn[v], net.cards[v], [[float(x)] for x in virt[v]],
                           state_names={net.vn[v]: list(net.st[v])}) for v in sorted(virt)] or None
         trace[-1] = "%s Q=%s E=%s virt=%s" % (op, Q, sorted(ev), sorted(virt))
+        if op == "rejected":
+            # a call that must be refused (the invalid part comes LAST); the engine must stay usable and unchanged
+            kind = rng.choice(["overlap", "bad-virtual-card", "virtual-unknown-variable", "order-has-query-variable",
+                               "unknown-state"])
+            okv = TabularCPD(net.vn[Q[0]], net.cards[Q[0]], [[1.0]] * net.cards[Q[0]],
+                             state_names={net.vn[Q[0]]: list(net.st[Q[0]])})
+            try:
+                if kind == "overlap":
+                    eng.map_query(variables=list(Qn), evidence={**evn, Qn[-1]: net.st[Q[-1]][0]}, show_progress=False)
+                elif kind == "bad-virtual-card":
+                    badv = TabularCPD(net.vn[Q[-1]], net.cards[Q[-1]] + 1, [[1.0]] * (net.cards[Q[-1]] + 1))
+                    eng.map_query(variables=list(Qn), evidence=dict(evn) or None, virtual_evidence=[okv, badv],
+                                  show_progress=False)
+                elif kind == "virtual-unknown-variable":
+                    badv = TabularCPD("no such variable", 2, [[0.5], [0.5]])
+                    eng.map_query(variables=list(Qn), evidence=dict(evn) or None, virtual_evidence=[okv, badv],
+                                  show_progress=False)
+                elif kind == "order-has-query-variable":
+                    if engine != "ve":
+                        continue
+                    others = [net.vn[v] for v in range(n) if v not in Q and v not in ev]
+                    eng.map_query(variables=list(Qn), evidence=dict(evn) or None,
+                                  elimination_order=others + [Qn[0]], show_progress=False)
+                else:
+                    free = [v for v in range(n) if v not in Q and v not in ev]
+                    if not free:
+                        continue
+                    eng.map_query(variables=list(Qn), evidence={**evn, net.vn[free[0]]: ("no", "such", "state")},
+                                  show_progress=False)
+                return bad("impl!=spec:invalid-map-query-accepted", {"kind": kind, "trace": trace})
+            except (ValueError, KeyError, IndexError, TypeError):
+                tags.append("session rejected " + kind)
+            continue
         if op == "query":
             kw = {} if engine == "bp" else {"elimination_order": rng.choice(["greedy", "MinFill"])}
             eng.query(variables=list(Qn), evidence=dict(evn) or None, virtual_evidence=vev,
@@ -1055,6 +1321,25 @@ def run_session(case, drv):
         elif b:
             b["kind"] = b["kind"] + ":session"
             return b
+        if rng.random() < 0.3 and isinstance(res, dict):
+            # the returned dict belongs to the caller: scribbling over it must not reach the engine or later answers
+            keep = dict(res)
+            for k_ in list(res):
+                res[k_] = ("scribble", k_)
+            res["__extra__"] = 0
+            res_b = eng.map_query(variables=list(Qn), evidence=dict(evn) or None, virtual_evidence=vev,
+                                  show_progress=False, **kw)
+            if res_b is res:
+                return bad("impl!=spec:same-result-object-returned-twice", {"trace": trace})
+            b = J.judge(res_b, "session %s: repeat after mutating the returned dict: %s" % (engine, " ; ".join(trace)),
+                        strict_ties=(engine == "ve"))
+            tags.append("session result-mutated-then-repeat")
+            if b and b != "near":
+                b["kind"] = b["kind"] + ":session"
+                return b
+            if (engine == "ve" or J.unique) and res_b != keep:
+                return bad("impl!=spec:repeated-question-answered-differently:session",
+                           {"first": repr(keep), "second": repr(res_b), "trace": trace})
     return ok(nontrivial=nontrivial, key=common.canon_key(["session", case["engine"], case["nsteps"], case["edges"],
                                                             case["cards"], case["cpds"], case["vnames"], case["states"],
                                                             case["qseed"]]), tags=tags)
@@ -1063,7 +1348,10 @@ def run_session(case, drv):
 # ------------------------------------------------------------------ parameter updates on one model object
 def named_factor(net, cpd):
     """a TabularCPD the model currently holds -> [var ids, exact values] in the harness's state numbering"""
-    phi = cpd.to_factor()
+    return named_phi(net, cpd.to_factor())
+
+
+def named_phi(net, phi):
     vs = [net.var_of(x) for x in phi.variables]
     pos = []
     for x, v in zip(phi.variables, vs):
@@ -1072,8 +1360,9 @@ def named_factor(net, cpd):
             raise ValueError("cardinality of %r changed" % (x,))
         pos.append([[net.state_no(v, nm) for nm in names].index(i) for i in range(net.cards[v])])
     vals = []
+    pv = to_np(phi.values)
     for idx in itertools.product(*[range(net.cards[v]) for v in vs]):
-        vals.append(Fraction(float(phi.values[tuple(p[i] for p, i in zip(pos, idx))])))
+        vals.append(Fraction(float(pv[tuple(p[i] for p, i in zip(pos, idx))])))
     return [vs, vals]
 
 
@@ -1088,7 +1377,12 @@ def run_update(case, drv):
     bn, fs0 = build_bn(net)
     rng = random.Random(case["qseed"] + 31)
     n = net.n
-    conn = connected(case) and n >= 2
+    import networkx as nx
+    alive = list(range(n))
+    structural = False
+
+    def conn_now():
+        return len(bn.nodes()) >= 2 and nx.is_connected(bn.to_undirected())
     byv = {d["v"]: d for d in case["cpds"]}
     cur = {v: [[fr(x) for x in r] for r in byv[v]["rows"]] for v in byv}     # current exact tables (rows)
     tags = ["update n=%d rounds=%d" % (n, case["rounds"])]
@@ -1099,22 +1393,31 @@ def run_update(case, drv):
     def current_fs():
         # what the model object lists now; must be one CPD per variable
         vars_ = [net.var_of(c.variable) for c in bn.cpds]
-        if sorted(vars_) != list(range(n)):
-            raise ValueError("model lists CPDs for %r" % (vars_,))
+        if sorted(vars_) != sorted(alive) or sorted(net.var_of(x) for x in bn.nodes()) != sorted(alive):
+            raise ValueError("model lists CPDs for %r, nodes %r, expected %r" % (vars_, list(bn.nodes()), alive))
         return [named_factor(net, c) for c in bn.cpds]
 
     def ask(label, nquestions):
         nonlocal nontrivial
         fs = current_fs()
+        conn = conn_now()
         for _ in range(nquestions):
-            full = sample_pos(rng, net, cur, case)
-            k = 0 if rng.random() < 0.4 else rng.randint(0, n - 1)
-            E = rng.sample(range(n), k)
-            ev = {v: full[v] for v in E}
-            free = [v for v in range(n) if v not in ev]
-            Q = rng.sample(free, rng.randint(1, len(free)))
-            J = Judge(drv, net, fs, Q, ev, True)
-            if J.maxw <= 0:
+            J = None
+            for _try in range(6):
+                k = 0 if rng.random() < 0.4 else rng.randint(0, len(alive) - 1)
+                E = rng.sample(alive, k)
+                if structural:
+                    ev = {v: rng.randrange(net.cards[v]) for v in E}     # checked for non-zero mass below
+                else:
+                    full = sample_pos(rng, net, cur, case)
+                    ev = {v: full[v] for v in E}
+                free = [v for v in alive if v not in ev]
+                Q = rng.sample(free, rng.randint(1, len(free)))
+                J = Judge(drv, net, fs, Q, ev, True)
+                if J.maxw > 0:
+                    break
+                J = None
+            if J is None:
                 continue
             if len(J.w) >= 2:
                 nontrivial = True
@@ -1140,8 +1443,26 @@ def run_update(case, drv):
         return b
     bn.get_cpds(net.vn[rng.randrange(n)])
     for rd in range(1, case["rounds"] + 1):
-        mode = rng.choice(["replace", "replace", "replace", "remove_add"] + (["fit"] if can_fit else []))
+        mode = rng.choice(["replace"] * 6 + ["remove_add"] * 2 + (["fit"] * 2 if can_fit else [])
+                          + (["remove_node", "do"] if len(alive) >= 2 else []))
+        if structural:
+            mode = rng.choice(["remove_node", "do"]) if len(alive) >= 2 else "do"
         tags.append("update mode=" + mode)
+        if mode in ("remove_node", "do"):
+            # structural edits through the model's own mutators; the oracle is whatever the model lists afterwards
+            structural = True
+            v = rng.choice(alive)
+            if mode == "remove_node":
+                bn.remove_node(net.vn[v])
+                alive.remove(v)
+            else:
+                bn.do([net.vn[v]], inplace=True)
+            if rng.random() < 0.5:
+                bn.check_model()
+            b = ask("round %d (%s %d)" % (rd, mode, v), 3)
+            if b:
+                return b
+            continue
         if mode == "fit":
             # data drawn from a freshly generated parameter set; every state of every variable occurs
             newp = {v: regen_rows(rng, net, byv[v]) for v in byv}
@@ -1197,6 +1518,85 @@ def run_update(case, drv):
               tags=tags)
 
 
+def run_update_mn(case, drv):
+    """ONE MarkovNetwork object: factors are added / removed / replaced between rounds; fresh engines must answer for
+    the factors the network lists now"""
+    from pgmpy.inference import VariableElimination, BeliefPropagation
+    from pgmpy.factors.discrete import DiscreteFactor
+    net = Net(case)
+    mn, fs0 = build_mn(net)
+    rng = random.Random(case["qseed"] + 71)
+    n = net.n
+    conn = connected(case) and n >= 2
+    tags = ["update-mn n=%d" % n]
+    nontrivial = False
+
+    def ask(label):
+        nonlocal nontrivial
+        fs = [named_phi(net, phi) for phi in mn.get_factors()]
+        for _ in range(2):
+            J = None
+            for _try in range(6):
+                E = rng.sample(range(n), 0 if rng.random() < 0.5 else rng.randint(0, n - 1))
+                ev = {v: rng.randrange(net.cards[v]) for v in E}
+                free = [v for v in range(n) if v not in ev]
+                Q = rng.sample(free, rng.randint(1, len(free)))
+                J = Judge(drv, net, fs, Q, ev, False)
+                if J.maxw > 0:
+                    break
+                J = None
+            if J is None:
+                continue
+            if len(J.w) >= 2:
+                nontrivial = True
+            evn = {net.vn[v]: net.st[v][s_] for v, s_ in ev.items()}
+            Qn = [net.vn[v] for v in Q]
+            engines = [("VE", lambda: VariableElimination(mn))] + ([("BP", lambda: BeliefPropagation(mn))] if conn else [])
+            for nm, mk in engines:
+                res = mk().map_query(variables=list(Qn), evidence=dict(evn) or None, show_progress=False)
+                b = J.judge(res, "update-mn %s: fresh %s engine" % (label, nm), strict_ties=False)
+                if b and b != "near":
+                    b["kind"] = b["kind"] + ":after-factor-update"
+                    return b
+        return None
+
+    b = ask("round 0")
+    if b:
+        return b
+    for rd in range(1, 4):
+        facs = list(mn.get_factors())
+        mode = rng.choice(["add", "add", "remove", "replace"])
+        covered = lambda fl: {x for f in fl for x in f.variables} == set(mn.nodes())
+        victim = rng.choice(facs)
+        if mode in ("remove", "replace") and not covered([f for f in facs if f is not victim]) and mode == "remove":
+            mode = "replace"
+        scope = list(victim.variables)
+        rng.shuffle(scope)
+        if mode == "add" and rng.random() < 0.5:
+            scope = [rng.choice(scope)]
+        vs = [net.var_of(x) for x in scope]
+        size = 1
+        for v in vs:
+            size *= net.cards[v]
+        vals = [Fraction(rng.choice([0, 1, 1, 2, 3, 4, 5, 8]), rng.choice([1, 2, 4])) for _ in range(size)]
+        if all(x == 0 for x in vals):
+            vals[0] = Fraction(1)
+        newf = DiscreteFactor(scope, [net.cards[v] for v in vs], [float(x) for x in vals],
+                              state_names={net.vn[v]: list(net.st[v]) for v in vs})
+        if mode in ("remove", "replace"):
+            mn.remove_factors(victim)
+        if mode in ("add", "replace"):
+            mn.add_factors(newf)
+        tags.append("update-mn mode=" + mode)
+        if rng.random() < 0.5:
+            mn.check_model()
+        b = ask("round %d (%s)" % (rd, mode))
+        if b:
+            return b
+    return ok(nontrivial=nontrivial, key=common.canon_key(["update-mn", case["edges"], case["cards"], case["factors"],
+                                                            case["vnames"], case["states"], case["qseed"]]), tags=tags)
+
+
 def regen_rows(rng, net, d):
     v = d["v"]
     ncol = 1
@@ -1219,11 +1619,208 @@ def sample_pos(rng, net, tables, case):
     return state
 
 
+# ------------------------------------------------------------------ map_query without variables, every engine
+def build_fg(net):
+    """FactorGraph with the factors themselves as factor nodes (the form FactorGraph.check_model accepts)"""
+    from pgmpy.models import FactorGraph
+    from pgmpy.factors.discrete import DiscreteFactor
+    case = net.case
+    fg = FactorGraph()
+    fg.add_nodes_from([net.vn[v] for v in range(net.n)])
+    fs = []
+    for f in case["factors"]:
+        sc = f["vars"]
+        vals = [fr(x) for x in f["vals"]]
+        phi = DiscreteFactor([net.vn[v] for v in sc], [net.cards[v] for v in sc], [float(x) for x in vals],
+                             state_names={net.vn[v]: list(net.st[v]) for v in sc})
+        fg.add_factors(phi)
+        fg.add_node(phi)
+        fg.add_edges_from([(net.vn[v], phi) for v in sc])
+        fs.append([list(sc), vals])
+    fg.check_model()
+    return fg, fs
+
+
+def run_all(case, drv):
+    """map_query(variables=None / []) = MAP over exactly the unobserved variables, with and without hard / virtual
+    evidence, on BayesianNetwork, MarkovNetwork, FactorGraph (BP) and JunctionTree engines; plus explicit query sets on
+    the FactorGraph / JunctionTree engines."""
+    from pgmpy.inference import VariableElimination, BeliefPropagation
+    from pgmpy.factors.discrete import TabularCPD, DiscreteFactor
+    net = Net(case)
+    isbn = case["base"] == "bn"
+    if isbn:
+        model, fs = build_bn(net)
+    else:
+        model, fs = build_mn(net)
+    rng = random.Random(case["qseed"] + 53)
+    n = net.n
+    conn = connected(case) and n >= 2
+    tags = ["all base=%s n=%d" % (case["base"], n)]
+    nontrivial = False
+    for rd in range(3):
+        # evidence of non-zero mass
+        ev = None
+        for _ in range(20):
+            k = 0 if rd == 0 else rng.randint(0, n - 1)
+            E = rng.sample(range(n), k)
+            if isbn:
+                full = pos_state(rng, net, fs)
+                cand = {v: full[v] for v in E}
+            else:
+                cand = {v: rng.randrange(net.cards[v]) for v in E}
+            free = [v for v in range(n) if v not in cand]
+            if not free:
+                continue
+            virt = {}
+            if isbn and rng.random() < 0.35:
+                for v in rng.sample(free, rng.randint(1, min(2, len(free)))):
+                    wts = [Fraction(rng.choice([0, 1, 2, 3, 4, 6, 8]), 8) for _ in range(net.cards[v])]
+                    wts[full[v]] = max(wts[full[v]], Fraction(1, 8))
+                    virt[v] = wts
+            fsq = fs + [[[v], virt[v]] for v in sorted(virt)]
+            J = Judge(drv, net, fsq, free, cand, isbn)
+            if J.maxw > 0:
+                ev = cand
+                break
+        if ev is None:
+            continue
+        if len(J.w) >= 2:
+            nontrivial = True
+        evn = {net.vn[v]: net.st[v][s_] for v, s_ in ev.items()}
+
+        def vev():
+            out = []
+            for v in sorted(virt):
+                if rng.random() < 0.5:
+                    out.append(TabularCPD(net.vn[v], net.cards[v], [[float(x)] for x in virt[v]],
+                                          state_names={net.vn[v]: list(net.st[v])}))
+                else:
+                    out.append(DiscreteFactor([net.vn[v]], [net.cards[v]], [float(x) for x in virt[v]],
+                                              state_names={net.vn[v]: list(net.st[v])}))
+            return out or None
+
+        engines = []
+        for eo in rng.sample(HEURISTICS + [None, "greedy"], 3):
+            engines.append(("VE(%s) order=%s" % (case["base"], eo), lambda: VariableElimination(model),
+                            {"elimination_order": eo}, True))
+        if conn:
+            engines.append(("BP(%s)" % case["base"], lambda: BeliefPropagation(model), {}, False))
+            if not virt:
+                jt = model.to_junction_tree()
+                engines.append(("BP(JunctionTree of %s)" % case["base"], lambda: BeliefPropagation(jt), {}, False))
+                engines.append(("VE(JunctionTree of %s)" % case["base"], lambda: VariableElimination(jt),
+                                {"elimination_order": rng.choice(["MinFill", "greedy", None])}, False))
+        keys = [canon_table(f["vars"], [fr(x) for x in f["vals"]], net.cards) for f in case.get("factors", [])]
+        # (a FactorGraph keeps factors as graph nodes, so it cannot hold two EQUAL factors)
+        if not isbn and conn and len(set(keys)) == len(keys):
+            fg, _ = build_fg(net)
+            engines.append(("BP(FactorGraph)", lambda: BeliefPropagation(fg), {}, False))
+        for nm, mk, kw, strict in engines:
+            varg = rng.choice([None, [], "omit"])
+            args = dict(kw)
+            if varg != "omit":
+                args["variables"] = varg
+            evarg = dict(evn) if (evn or rng.random() < 0.5) else None
+            vv = vev() if nm.startswith(("VE(bn", "BP(bn")) else None
+            if virt and vv is None:
+                continue
+            snap = repr(sorted(evarg.items(), key=repr)) if evarg is not None else None
+            res = mk().map_query(evidence=evarg, virtual_evidence=vv, show_progress=False, **args)
+            if evarg is not None and repr(sorted(evarg.items(), key=repr)) != snap:
+                return bad("impl!=spec:evidence-argument-mutated", {"where": nm, "before": snap, "after": repr(evarg)})
+            tags.append("all " + nm.split(" order=")[0] + (" virt" if virt else "") + (" ev" if ev else ""))
+            if "order=greedy" in nm:
+                tags.append("all VE greedy")
+            b = J.judge(res, "map_query without variables (%s): %s" % (varg, nm), strict_ties=strict and not virt)
+            if b == "near":
+                tags.append("near-tie-accepted")
+            elif b:
+                b["kind"] = b["kind"] + ":no-variables"
+                return b
+        # explicit query sets on the FactorGraph / JunctionTree engines
+        if conn and not virt:
+            free = [v for v in range(n) if v not in ev]
+            Q = rng.sample(free, rng.randint(1, len(free)))
+            JQ = Judge(drv, net, fs, Q, ev, isbn)
+            Qn = [net.vn[v] for v in Q]
+            more = [("BP(JunctionTree) Q", lambda: BeliefPropagation(model.to_junction_tree()), {}),
+                    ("VE(JunctionTree) Q", lambda: VariableElimination(model.to_junction_tree()), {})]
+            if not isbn and len(set(keys)) == len(keys):
+                more.append(("BP(FactorGraph) Q", lambda: BeliefPropagation(build_fg(net)[0]), {}))
+            for nm, mk, kw in more:
+                res = mk().map_query(variables=list(Qn), evidence=dict(evn) or None, show_progress=False, **kw)
+                tags.append("all " + nm)
+                b = JQ.judge(res, nm, strict_ties=False)
+                if b == "near":
+                    tags.append("near-tie-accepted")
+                elif b:
+                    return b
+    return ok(nontrivial=nontrivial, key=common.canon_key(["all", case["base"], case["edges"], case["cards"],
+                                                            case.get("cpds"), case.get("factors"), case["vnames"],
+                                                            case["states"], case["qseed"]]), tags=tags)
+
+
+def run_wide(case, drv):
+    from pgmpy.inference import VariableElimination, BeliefPropagation
+    net = Net(case)
+    bn, fs = build_bn(net)
+    rng = random.Random(case["qseed"] + 5)
+    n = net.n
+    tags = ["wide n=%d" % n]
+    conn = connected(case)
+    for qi in range(3):
+        full = pos_state(rng, net, fs)
+        E = [] if qi < 2 else rng.sample(range(n), 1)
+        ev = {v: full[v] for v in E}
+        free = [v for v in range(n) if v not in ev]
+        Q = list(free) if qi != 1 else rng.sample(free, n - 1)
+        rng.shuffle(Q)
+        J = Judge(drv, net, fs, Q, ev, True)
+        evn = {net.vn[v]: net.st[v][s_] for v, s_ in ev.items()}
+        Qn = [net.vn[v] for v in Q]
+        calls = [("VE %s" % eo, lambda eo=eo: VariableElimination(bn).map_query(
+            variables=list(Qn), evidence=dict(evn) or None, elimination_order=eo, show_progress=False), True)
+            for eo in rng.sample(HEURISTICS + [None], 2)]
+        if qi != 1:
+            calls.append(("VE no-variables", lambda: VariableElimination(bn).map_query(
+                evidence=dict(evn) or None, elimination_order=rng.choice(["greedy", "MinFill"]), show_progress=False), True))
+        if conn:
+            calls.append(("BP", lambda: BeliefPropagation(bn).map_query(variables=list(Qn), evidence=dict(evn) or None,
+                                                                         show_progress=False), False))
+        for nm, call, strict in calls:
+            res = call()
+            b = J.judge(res, "wide: " + nm, strict_ties=strict)
+            tags.append("wide %s axes=%d" % (nm.split(" ")[0], len(Q)))
+            if b and b != "near":
+                return b
+    return ok(nontrivial=True, key=common.canon_key(["wide", case["edges"], case["cards"], case["cpds"], case["vnames"],
+                                                     case["states"], case["qseed"]]), tags=tags)
+
+
 def run_case(case, drv):
+    if case.get("torch"):
+        import torch
+        from pgmpy import config
+        config.set_backend("torch", device="cpu", dtype=torch.float64)
+        try:
+            c2 = dict(case)
+            del c2["torch"]
+            out = run_case(c2, drv)
+            out.setdefault("tags", []).append("backend=torch")
+            return out
+        finally:
+            config.set_backend("numpy")
+    if case["kind"] == "wide":
+        return run_wide(case, drv)
     if case["kind"] == "bn":
         return run_bn(case, drv)
+    if case["kind"] == "all":
+        return run_all(case, drv)
     if case["kind"] == "update":
         return run_update(case, drv)
+    if case["kind"] == "update-mn":
+        return run_update_mn(case, drv)
     if case["kind"] == "session":
         return run_session(case, drv)
     if case["kind"] == "mn":
